@@ -71,24 +71,106 @@ package misc
 //@   loop 1 invariant forall d :: 0 <= d && d < 4*i ==> out[d] == spec.byte32(addr[d / 4], 3 - d % 4)
 //@   loop 2 unreachable
 
+// ---- mnemonic codec (C10).  v_m = the m-th 12-bit group of the byte string (spec.val12), word m = WordList[v_m];
+// a phrase is the words joined by single blanks.  Decoding: bytes 3u, 3u+1, 3u+2 from the word indices V(2u), V(2u+1). ----
+
+//@ pred tokIdx(s, m) := spec.widx(spec.tok(strof(s), m))
+//@ pred allInList(s, n) := forall m_ :: 0 <= m_ && m_ < n ==> spec.inlist(spec.tok(strof(s), m_))
+
+//@ func binToMnemonic
+//@   props C10 C09
+//@   panics "byte count needs to be a multiple of 3" when len(input) % 3 != 0
+//@   ensures[C10,C09] strof(result) == spec.joined(spec.mnemWords(input), 2 * len(input) / 3)
+//@   loop 1 invariant 0 <= nibble && nibble <= 2 * len(input) && nibble % 3 == 0 && len(input) % 3 == 0
+//@   loop 1 invariant[C10,C09] strof(buf) == spec.joined(spec.mnemWords(input), nibble / 3) && strof(separator) == ite(nibble == 0, spec.str_empty, spec.str_space)
+//@   loop 1 assert[C10,C09] idx == spec.val12(input, nibble / 3)
+//@   loop 1 assert[C10,C09] strof(buf) == spec.joined(spec.mnemWords(input), nibble / 3 + 1)
+
+//@ func SeedBinToMnemonic
+//@   props C10 C09
+//@   ensures[C10,C09] strof(result) == spec.joined(spec.mnemWords(input[0:]), 32)
+
+//@ func ExtendedSeedBinToMnemonic
+//@   props C10 C09
+//@   ensures[C10,C09] strof(result) == spec.joined(spec.mnemWords(input[0:]), 34)
+
 //@ func mnemonicToBin
 //@   props C14 C10 C09 C15
-//@   panics "word count = %d must be even"
-//@   panics "invalid word in mnemonic"
+//@   panics "word count = %d must be even" when spec.ntok(strof(mnemonic)) % 2 != 0
+//@   panics "invalid word in mnemonic" when spec.ntok(strof(mnemonic)) % 2 == 0 && !allInList(mnemonic, spec.ntok(strof(mnemonic)))
+//@   ensures len(result) == 3 * spec.ntok(strof(mnemonic)) / 2
+//@   ensures[C10,C09] forall u_ :: 0 <= u_ && 2 * u_ < spec.ntok(strof(mnemonic)) ==> result[3*u_] == tokIdx(mnemonic, 2*u_) / 16 && result[3*u_+1] == (tokIdx(mnemonic, 2*u_) % 16) * 16 + tokIdx(mnemonic, 2*u_+1) / 256 && result[3*u_+2] == tokIdx(mnemonic, 2*u_+1) % 256
+//@   ensures[C10,C09] forall t_ :: 0 <= t_ && t_ < spec.ntok(strof(mnemonic)) ==> spec.val12(result, t_) == tokIdx(mnemonic, t_)
 //@   loop 1 invariant 0 <= range_1 && range_1 <= 4096
 //@   loop 1 invariant forall s:Str :: maphas(wordLookup, s) ==> 0 <= mapval(wordLookup, s) && mapval(wordLookup, s) < 4096
+//@   loop 1 invariant[C10,C09,C14] forall s:Str :: maphas(wordLookup, s) <==> (spec.inlist(s) && spec.widx(s) < range_1)
+//@   loop 1 invariant[C10,C09] forall s:Str :: maphas(wordLookup, s) ==> mapval(wordLookup, s) == spec.widx(s)
 //@   loop 2 invariant 0 <= range_2 && range_2 <= wordCount && 0 <= buffering && buffering <= 2 && 2*resultIndex + buffering == 3*range_2 && resultIndex >= 0
 //@   loop 2 invariant 0 <= current && current < spec.pow2(4*buffering)
+//@   loop 2 invariant (range_2 == 0 ==> buffering == 0) && (range_2 % 2 == 1 ==> buffering == 1) && (range_2 % 2 == 0 && range_2 > 0 ==> buffering == 2)
+//@   loop 2 invariant[C10,C09,C14] allInList(mnemonic, range_2)
+//@   loop 2 invariant[C10,C09] forall u_ :: 0 <= u_ && 2 * u_ + 1 < range_2 ==> result[3*u_] == tokIdx(mnemonic, 2*u_) / 16 && result[3*u_+1] == (tokIdx(mnemonic, 2*u_) % 16) * 16 + tokIdx(mnemonic, 2*u_+1) / 256
+//@   loop 2 invariant[C10,C09] forall u_ :: 0 <= u_ && 2 * u_ + 2 < range_2 ==> result[3*u_+2] == tokIdx(mnemonic, 2*u_+1) % 256
+//@   loop 2 invariant[C10,C09] range_2 % 2 == 1 ==> result[3*(range_2/2)] == tokIdx(mnemonic, range_2 - 1) / 16 && current == tokIdx(mnemonic, range_2 - 1) % 16
+//@   loop 2 invariant[C10,C09] range_2 % 2 == 0 && range_2 > 0 ==> current == tokIdx(mnemonic, range_2 - 1) % 256
+//@   loop 2 invariant[C10,C09] forall t_ :: 0 <= t_ && t_ + 1 < range_2 ==> spec.val12(result, t_) == tokIdx(mnemonic, t_)
+//@   loop 2 invariant[C10,C09] range_2 % 2 == 0 && range_2 > 0 ==> result[3*(range_2/2)-2] == (tokIdx(mnemonic, range_2 - 2) % 16) * 16 + tokIdx(mnemonic, range_2 - 1) / 256
+//@   loop 2 invariant[C10,C09] forall t_ :: 0 <= t_ && t_ < range_2 ==> 0 <= tokIdx(mnemonic, t_) && tokIdx(mnemonic, t_) < 4096
+//@   loop 2 assert[C10,C09] range_2 % 2 == 1 ==> result[3*(range_2/2)] == tokIdx(mnemonic, range_2 - 1) / 16 && result[3*(range_2/2)+1] == (tokIdx(mnemonic, range_2 - 1) % 16) * 16 + tokIdx(mnemonic, range_2) / 256
+//@   loop 2 assert[C10,C09] forall u_ :: 0 <= u_ && 2 * u_ + 1 == range_2 ==> result[3*u_] == tokIdx(mnemonic, 2*u_) / 16 && result[3*u_+1] == (tokIdx(mnemonic, 2*u_) % 16) * 16 + tokIdx(mnemonic, 2*u_+1) / 256
+//@   loop 2 assert[C10,C09] range_2 % 2 == 0 && range_2 > 0 ==> result[3*(range_2/2)-1] == tokIdx(mnemonic, range_2 - 1) % 256
+//@   loop 2 assert[C10,C09] forall u_ :: 0 <= u_ && 2 * u_ + 2 == range_2 ==> result[3*u_+2] == tokIdx(mnemonic, 2*u_+1) % 256
+//@   loop 2 assert[C10,C09] range_2 >= 1 ==> spec.val12(result, range_2 - 1) == tokIdx(mnemonic, range_2 - 1)
 //@   loop 3 invariant 1 <= buffering && buffering <= 5 && 2*resultIndex + buffering == 3*(range_2+1) && resultIndex >= 0 && 0 <= current && current < spec.pow2(4*buffering)
+//@   loop 3 invariant[C10,C09] forall u_ :: 0 <= u_ && 2 * u_ + 1 < range_2 ==> result[3*u_] == tokIdx(mnemonic, 2*u_) / 16 && result[3*u_+1] == (tokIdx(mnemonic, 2*u_) % 16) * 16 + tokIdx(mnemonic, 2*u_+1) / 256
+//@   loop 3 invariant[C10,C09] forall u_ :: 0 <= u_ && 2 * u_ + 2 < range_2 ==> result[3*u_+2] == tokIdx(mnemonic, 2*u_+1) % 256
+//@   loop 3 invariant[C10,C09] range_2 % 2 == 1 ==> result[3*(range_2/2)] == tokIdx(mnemonic, range_2 - 1) / 16
+//@   loop 3 invariant[C10,C09] buffering == 5 ==> range_2 % 2 == 0 && range_2 > 0 && current == (tokIdx(mnemonic, range_2 - 1) % 256) * 4096 + tokIdx(mnemonic, range_2)
+//@   loop 3 invariant[C10,C09] buffering == 4 ==> range_2 % 2 == 1 && current == (tokIdx(mnemonic, range_2 - 1) % 16) * 4096 + tokIdx(mnemonic, range_2)
+//@   loop 3 invariant[C10,C09] buffering == 3 ==> range_2 % 2 == 0 && current == tokIdx(mnemonic, range_2) && (range_2 > 0 ==> result[resultIndex-1] == tokIdx(mnemonic, range_2 - 1) % 256)
+//@   loop 3 invariant[C10,C09] buffering == 2 ==> range_2 % 2 == 1 && current == tokIdx(mnemonic, range_2) % 256 && result[resultIndex-1] == (tokIdx(mnemonic, range_2 - 1) % 16) * 16 + tokIdx(mnemonic, range_2) / 256
+//@   loop 3 invariant[C10,C09] buffering == 1 ==> range_2 % 2 == 0 && current == tokIdx(mnemonic, range_2) % 16 && result[resultIndex-1] == tokIdx(mnemonic, range_2) / 16 && (range_2 > 0 ==> result[resultIndex-2] == tokIdx(mnemonic, range_2 - 1) % 256)
+//@   loop 3 invariant[C10,C09] spec.inlist(spec.tok(strof(mnemonic), range_2)) && allInList(mnemonic, range_2)
+//@   loop 3 invariant[C10,C09] forall t_ :: 0 <= t_ && t_ + 1 < range_2 ==> spec.val12(result, t_) == tokIdx(mnemonic, t_)
+//@   loop 3 invariant[C10,C09] range_2 % 2 == 0 && range_2 > 0 ==> result[3*(range_2/2)-2] == (tokIdx(mnemonic, range_2 - 2) % 16) * 16 + tokIdx(mnemonic, range_2 - 1) / 256
+//@   loop 3 invariant[C10,C09] forall t_ :: 0 <= t_ && t_ <= range_2 ==> 0 <= tokIdx(mnemonic, t_) && tokIdx(mnemonic, t_) < 4096
 
 //@ func MnemonicToSeedBin
 //@   props C14 C10 C09 C15
-//@   panics "word count = %d must be even"
-//@   panics "invalid word in mnemonic"
-//@   panics "unexpected MnemonicToSeedBin output size"
+//@   panics "word count = %d must be even" when spec.ntok(strof(mnemonic)) % 2 != 0
+//@   panics "invalid word in mnemonic" when spec.ntok(strof(mnemonic)) % 2 == 0 && !allInList(mnemonic, spec.ntok(strof(mnemonic)))
+//@   panics "unexpected MnemonicToSeedBin output size" when spec.ntok(strof(mnemonic)) % 2 == 0 && allInList(mnemonic, spec.ntok(strof(mnemonic))) && spec.ntok(strof(mnemonic)) != 32
+//@   ensures[C10,C09] forall t_ :: 0 <= t_ && t_ < 32 ==> spec.val12(result[0:], t_) == tokIdx(mnemonic, t_)
+//@   ensures[C10,C09] forall u_ :: 0 <= u_ && u_ < 16 ==> result[3*u_] == tokIdx(mnemonic, 2*u_) / 16 && result[3*u_+1] == (tokIdx(mnemonic, 2*u_) % 16) * 16 + tokIdx(mnemonic, 2*u_+1) / 256 && result[3*u_+2] == tokIdx(mnemonic, 2*u_+1) % 256
 
 //@ func MnemonicToExtendedSeedBin
 //@   props C14 C10 C09 C15
+//@   panics "word count = %d must be even" when spec.ntok(strof(mnemonic)) % 2 != 0
+//@   panics "invalid word in mnemonic" when spec.ntok(strof(mnemonic)) % 2 == 0 && !allInList(mnemonic, spec.ntok(strof(mnemonic)))
+//@   panics "unexpected MnemonicToExtendedSeedBin output size" when spec.ntok(strof(mnemonic)) % 2 == 0 && allInList(mnemonic, spec.ntok(strof(mnemonic))) && spec.ntok(strof(mnemonic)) != 34
+//@   ensures[C10,C09] forall t_ :: 0 <= t_ && t_ < 34 ==> spec.val12(result[0:], t_) == tokIdx(mnemonic, t_)
+//@   ensures[C10,C09] forall u_ :: 0 <= u_ && u_ < 17 ==> result[3*u_] == tokIdx(mnemonic, 2*u_) / 16 && result[3*u_+1] == (tokIdx(mnemonic, 2*u_) % 16) * 16 + tokIdx(mnemonic, 2*u_+1) / 256 && result[3*u_+2] == tokIdx(mnemonic, 2*u_+1) % 256
+
+// ---- C10 round trips (lemma functions in zz_lemmas_verif.go) ----
+
+//@ func verifLemmaSeedRoundTrip
+//@   props C10 C09
+//@   ensures[C10,C09] forall u_ :: 0 <= u_ && u_ < 16 ==> result[3*u_] == seed[3*u_] && result[3*u_+1] == seed[3*u_+1] && result[3*u_+2] == seed[3*u_+2]
+
+//@ func verifLemmaExtendedSeedRoundTrip
+//@   props C10 C09
+//@   ensures[C10,C09] forall u_ :: 0 <= u_ && u_ < 17 ==> result[3*u_] == eseed[3*u_] && result[3*u_+1] == eseed[3*u_+1] && result[3*u_+2] == eseed[3*u_+2]
+
+//@ func verifLemmaPhraseRoundTrip
+//@   props C10
+//@   panics "word count = %d must be even"
+//@   panics "invalid word in mnemonic"
+//@   panics "unexpected MnemonicToSeedBin output size"
+//@   ensures[C10] strof(result) == strof(phrase)
+
+//@ func verifLemmaExtendedPhraseRoundTrip
+//@   props C10
 //@   panics "word count = %d must be even"
 //@   panics "invalid word in mnemonic"
 //@   panics "unexpected MnemonicToExtendedSeedBin output size"
+//@   ensures[C10] strof(result) == strof(phrase)
